@@ -236,14 +236,16 @@ impl DetectProp for C06 {
                 }
                 // a single-element result must then not be an "early exit" on a non-hint: nothing to check;
                 // a result that stopped early would miss encodings accepted alone later in the order (C09 converse)
-                if !s.fb {
-                    for e in ["windows-1252", "iso-8859-1", "koi8-r", "windows-1251", "gbk", "big5", "euc-kr", "shift_jis", "iso-8859-7"] {
+                // (the single probes run without the last-resort candidates, so "accepted alone" means accepted on merit)
+                {
+                    for e in ["windows-1252", "iso-8859-1", "ibm866", "koi8-r", "windows-1251", "gbk", "big5", "euc-kr", "shift_jis", "iso-8859-7"] {
                         if all.iter().any(|x| x == e) || excl.iter().any(|x| x == e) || (!incl.is_empty() && !incl.iter().any(|x| x == e)) {
                             continue;
                         }
                         let mut s1 = s.clone();
                         s1.incl = vec![e.to_string()];
                         s1.excl = vec![];
+                        s1.fb = false;
                         if let Outcome::Ok(v) = real_detect(&case.bytes, &s1) {
                             if v.len() == 1 {
                                 let explained = supported().iter().any(|f| {
@@ -251,6 +253,7 @@ impl DetectProp for C06 {
                                         let mut s2 = s.clone();
                                         s2.incl = vec![f.to_string()];
                                         s2.excl = vec![];
+                                        s2.fb = false;
                                         matches!(real_detect(&case.bytes, &s2), Outcome::Ok(v) if v.is_empty())
                                     }
                                 });
